@@ -36,7 +36,9 @@ var pureLibs = map[string]bool{
 	"(*base64.Encoding).DecodeString": true, "metadata.Join": true, "(metadata.MD).Copy": true,
 	"metadata.NewIncomingContext": true, "context.WithTimeout": true, "context.WithCancel": true,
 	"(*sync.WaitGroup).Add": true, "(*sync.WaitGroup).Done": true, "(*sync.WaitGroup).Wait": true, "(*sync.Pool).Put": true,
-	"(http.Flusher).Flush": true, "(Compressor).Name": true, "(proto.Message).ProtoReflect": true,
+	"(http.Flusher).Flush": true, "(protoreflect.FieldDescriptors).ByJSONName": true, "(protoreflect.FieldDescriptors).ByName": true,
+	"(protoreflect.MessageDescriptor).Fields": true, "(protoreflect.List).Append": true, "(protoreflect.Message).Set": true,
+	"(protoreflect.ProtoMessage).ProtoReflect": true, "(Compressor).Name": true, "(proto.Message).ProtoReflect": true,
 	"(protoreflect.MethodDescriptor).IsStreamingClient": true, "(protoreflect.MethodDescriptor).IsStreamingServer": true,
 	"(Codec).Name": true, "(StreamCodec).Name": true, "(encoding.Codec).Name": true,
 }
@@ -146,6 +148,11 @@ func (c *FnCtx) execCall(st *State, in ssa.Instruction, cc *ssa.CallCommon) Val 
 // libResultFacts adds the few facts the engine assumes about abstracted pure calls.
 func (c *FnCtx) libResultFacts(st *State, name string, v Val) {
 	switch name {
+	case "(protoreflect.MessageDescriptor).Fields", "(proto.Message).ProtoReflect", "(protoreflect.ProtoMessage).ProtoReflect":
+		if i, ok := v.(VIface); ok {
+			c.assert(lt("0", i.Typ))
+			c.assumptions["library contract: "+name+" never returns nil"] = true
+		}
 	case "fmt.Errorf", "errors.New", "status.Errorf", "status.Error", "protowire.ParseError":
 		if i, ok := v.(VIface); ok {
 			// a non-nil error whose dynamic type is neither a sentinel nor a type constructed in this package
@@ -585,6 +592,12 @@ func (e *Engine) ghostCall(env *Env, x ECall) (Val, bool) {
 	case "maphas": // maphas(m, k): k is a key of map m (only facts delivered by ranging over m are known)
 		e.needMapHas = true
 		return VBool{app("maphas", append([]string{env.evalInt(x.Args[0])}, c.keyTerms(env.eval(x.Args[1]))...)...)}, true
+	case "fdIsList", "fdIsMap":
+		e.needProto = true
+		return VBool{app(x.Fn, env.eval(x.Args[0]).(VIface).Pay)}, true
+	case "fdMsg":
+		e.needProto = true
+		return VInt{app("fdMsg", env.eval(x.Args[0]).(VIface).Pay)}, true
 	case "wrcalls": // number of Write calls made on w
 		id := readerID(env.eval(x.Args[0]))
 		return VInt{sel(c.heapGet(env.st, "G$wr.calls", arrSort(sInt)), id)}, true
